@@ -423,7 +423,7 @@ func reentrancy(res *Result, proj, sig string) {
 		})
 	})
 	const inner = `{% for i in l %}{% cycle "a" "b" %}{% ifchanged i %}!{% endifchanged %}{{ forloop.Counter }}{% endfor %}{% macro m(x) %}<{{ x }}>{% endmacro %}{{ m(v) }}{% filter upper %}{{ v }}k{% endfilter %}{% autoescape off %}{{ v }}{% endautoescape %}{% block b %}[{{ v }}]{% endblock %}{% spaceless %}<i> </i>{% endspaceless %}`
-	const outer = `{% for j in l %}{% cycle "x" "y" %}{{ sub(j) }}{% ifchanged j %}?{% endifchanged %}{{ forloop.Counter }}{{ forloop.Last }};{% endfor %}{{ st }}|{% block b %}{{ sub("blk") }}{% endblock %}|{% macro o(y) %}({{ sub(y) }}){% endmacro %}{{ o("mac") }}|{% filter lower %}{{ sub("FLT") }}{% endfilter %}|{{ "<f>"|verif_render }}|{% with w=sub("w") %}{{ w }}{{ w }}{% endwith %}|{% if deep %}{{ self() }}{% endif %}`
+	const outer = `{% for j in l %}{% cycle "x" "y" %}{{ sub(j) }}{% ifchanged j %}?{% endifchanged %}{{ forloop.Counter }}{{ forloop.Last }};{% endfor %}{{ st }}|{% block b %}{{ sub("blk") }}{% endblock %}|{% macro o(y) %}({{ sub(y) }}){% endmacro %}{{ o("mac") }}|{% filter lower %}{{ sub("FLT") }}{% endfilter %}|{{ "<f>"|verif_render }}|{% with w=sub("w") %}{{ w }}{{ w }}{% endwith %}|{% if deep %}{{ self() }}{% endif %}|{% for k, v in pongo2 sorted %}{{ k }}={{ v }};{% endfor %}`
 	for _, how := range []string{"Execute", "ExecuteBytes", "ExecuteWriter", "ExecuteWriterUnbuffered", "FromCache+Execute", "RenderTemplateString"} {
 		res.Cases++
 		files := map[string]string{"/inner.tpl": inner, "/outer.tpl": outer}
